@@ -283,6 +283,14 @@ func guard(f func() string) (msg string) {
 	return f()
 }
 
+// heldRec is a record kept across later marshal calls (aliasing law).
+type heldRec struct {
+	b, snap []byte
+	r       resource.Resource
+	m       store.Marshaler
+	label   string
+}
+
 func roundtripScenario(shard, n int) explore.Scenario {
 	return explore.Scenario{
 		Name:       fmt.Sprintf("roundtrip/shard%d-of-%d", shard, n),
@@ -292,6 +300,7 @@ func roundtripScenario(shard, n int) explore.Scenario {
 			register()
 			cs := codecs()
 			cases, enc := 0, 0
+			held := map[string]heldRec{}
 			for vi, mk := range mdVariants() {
 				if vi%n != shard {
 					continue
@@ -346,7 +355,25 @@ func roundtripScenario(shard, n int) explore.Scenario {
 							if err != nil {
 								return "unmarshal: " + err.Error()
 							}
-							return same(r, back, time.Nanosecond)
+							if d := same(r, back, time.Nanosecond); d != "" {
+								return d
+							}
+							// a record is the caller's once returned (a store writes it after other marshal calls):
+							// the record of the previous resource must be byte-identical and still decode to it
+							if h, ok := held[c.name]; ok {
+								if !bytes.Equal(h.b, h.snap) {
+									return fmt.Sprintf("the record returned earlier for [%s] changed after this marshal call (the marshaler hands out memory it reuses)", h.label)
+								}
+								hb, err := h.m.UnmarshalResource(h.b)
+								if err != nil {
+									return fmt.Sprintf("the record returned earlier for [%s] no longer decodes: %v", h.label, err)
+								}
+								if d := same(h.r, hb, time.Nanosecond); d != "" {
+									return fmt.Sprintf("the record returned earlier for [%s] decodes differently now: %s", h.label, d)
+								}
+							}
+							held[c.name] = heldRec{b: b, snap: append([]byte(nil), b...), r: r, m: m, label: label}
+							return ""
 						})
 						if msg != "" {
 							x.FailKey("roundtrip/"+c.name, "%s: %s: %s", label, c.name, msg)
